@@ -205,9 +205,10 @@ def vacuity_check(con, timeout_ms=5000):
     return str(s.check())
 
 
-def run_canary(con, label, old, new, timeout_ms=10000):
-    """apply a textual patch to the target's source file IN MEMORY and re-verify: some obligation must fail"""
-    fn = con.target()
+def run_canary(con, label, old, new, timeout_ms=10000, where=None):
+    """apply a textual patch to the source (of the target, or of the inlined callee `where()`) IN MEMORY and re-verify:
+    some obligation must fail"""
+    fn = where() if where is not None else con.target()
     import inspect
     path = os.path.realpath(inspect.getsourcefile(fn))
     src, tree = extract.parse_file(path)
